@@ -12,6 +12,8 @@ CONSTANTS
   Addrs = {"4096"}
   Grows = {}
   Lates = FALSE
+  AddAligns = {}
+  OnlyTiled = FALSE
   NopKinds = {}
   VariantSet = "none"
   Rotate = 0
